@@ -11,7 +11,7 @@ from props import _hist as H
 PID = "C01"
 RULE = (
     "explicit-state BFS on real Mineral objects: roots = fabric(6) x accepted regime(5) x all points "
-    "within <=1 deviation of the default over (texture kind(6, one an int64 array), volume vector(3, one an int64 array), n_grains(5: 5,2,3,8,1), "
+    "within <=1 deviation of the default over (texture kind(8: one an int64 array, one in Fortran order, one a transposed view), volume vector(3, one an int64 array), n_grains(5: 5,2,3,8,1), "
     "parameter set(14)); update alphabet = 6 flows (simple shear, pure shear, generic 3-D with "
     "vorticity, generic with trace, time-dependent, position-dependent along a pathline) x strain "
     "increment {0.1, 0.5} + rigid-body rotation + zero gradient + shear fading into spin + the other five axis-aligned simple shears + two intervals run backwards in time (22 letters; axis-aligned textures under every shear plane hit the exact-zero slip guards); ALL sequences to depth 2 (quick) / 3 (thorough) from every root. Long "
